@@ -11,12 +11,14 @@
 package main
 
 import (
+	"context"
 	"fmt"
 	"os"
 	"path/filepath"
 	"sort"
 	"strconv"
 	"strings"
+	"time"
 
 	"github.com/apache/skywalking-banyandb/api/common"
 	commonv1 "github.com/apache/skywalking-banyandb/api/proto/banyandb/common/v1"
@@ -25,16 +27,20 @@ import (
 	"github.com/apache/skywalking-banyandb/banyand/internal/sidx"
 	"github.com/apache/skywalking-banyandb/banyand/internal/verifdrv/drv"
 	"github.com/apache/skywalking-banyandb/banyand/measure"
+	"github.com/apache/skywalking-banyandb/banyand/observability"
+	"github.com/apache/skywalking-banyandb/banyand/protector"
 	"github.com/apache/skywalking-banyandb/banyand/stream"
 	"github.com/apache/skywalking-banyandb/pkg/convert"
 	"github.com/apache/skywalking-banyandb/pkg/encoding"
 	"github.com/apache/skywalking-banyandb/pkg/filter"
+	"github.com/apache/skywalking-banyandb/pkg/fs"
 	"github.com/apache/skywalking-banyandb/pkg/index"
 	"github.com/apache/skywalking-banyandb/pkg/index/posting/roaring"
 	pbv1 "github.com/apache/skywalking-banyandb/pkg/pb/v1"
 	"github.com/apache/skywalking-banyandb/pkg/query/logical"
 	logicalstream "github.com/apache/skywalking-banyandb/pkg/query/logical/stream"
 	logicaltrace "github.com/apache/skywalking-banyandb/pkg/query/logical/trace"
+	"github.com/apache/skywalking-banyandb/pkg/query/model"
 )
 
 // ---------------------------------------------------------------------------------------
@@ -1090,6 +1096,221 @@ func doBnd(f []string) string {
 	return fmt.Sprintf("%d %d %s", mn, mx, bits)
 }
 
+// e2e <cfg> <lo> <hi> <rows | "/" batch separator> | <criteria>
+// End to end through a real stream TSDB: every batch becomes one part (one mustAddElements call); the production
+// stream.Query runs with the inverted and skipping filters compiled for <cfg> over all series and [lo,hi]
+// (seconds relative to a base instant). output: <element ids returned> <tf bits>   (row n has element id n+1)
+func doE2E(f []string) string {
+	cfg := f[1]
+	lo, _ := strconv.ParseInt(f[2], 10, 64)
+	hi, _ := strconv.ParseInt(f[3], 10, 64)
+	left, crit := splitBar(f[4:])
+	c := criteriaOf(crit)
+	base := time.Now().Add(-3 * time.Hour).Truncate(time.Hour)
+	rules := indexRules(cfg)
+	var batches [][]stream.VerifE2ERow
+	var cur []stream.VerifE2ERow
+	var rv [][]string
+	n := 0
+	for _, t := range left {
+		if t == "/" {
+			if len(cur) > 0 {
+				batches = append(batches, cur)
+				cur = nil
+			}
+			continue
+		}
+		r := parseRows([]string{t})[0]
+		n++
+		vals := r.vals
+		rv = append(rv, vals)
+		sr := streamRows([]row{r}, cfg)[0]
+		sr.ElementID = uint64(n)
+		sr.Ts = base.Add(time.Duration(r.ts) * time.Second).UnixNano()
+		cur = append(cur, stream.VerifE2ERow{
+			Entity: fmt.Sprintf("e%d", r.sid), Row: sr,
+			Fields: func(sid common.SeriesID) []index.Field {
+				var fields []index.Field
+				for _, rule := range rules {
+					if rule.Type != databasev1.IndexRule_TYPE_INVERTED {
+						continue
+					}
+					i := tagIdx(rule.Tags[0])
+					tv := parseVal(vals[i])
+					if tv == nil {
+						continue
+					}
+					fields = stream.VerifAppendField(fields, index.FieldKey{IndexRuleID: rule.Metadata.Id, Analyzer: rule.Analyzer, SeriesID: sid}, tagTypes[i], tv, rule.NoSort)
+				}
+				return fields
+			},
+		})
+	}
+	if len(cur) > 0 {
+		batches = append(batches, cur)
+	}
+	bits := tfBits(c, rv)
+	var inv, skp index.Filter
+	var err error
+	if p := drv.Safe(func() string {
+		inv, _, err = compileStream(cfg, c, databasev1.IndexRule_TYPE_INVERTED)
+		if err == nil {
+			skp, _, err = compileStream(cfg, c, databasev1.IndexRule_TYPE_SKIPPING)
+		}
+		return ""
+	}); p != "" {
+		return "CPANIC " + bits
+	}
+	if err != nil {
+		return "C" + errClass(err) + " " + bits
+	}
+	roaring.DummyPostingList.Reset()
+	invSeq++
+	dir := filepath.Join(scratchRoot, fmt.Sprintf("e2e%d", invSeq))
+	if err := os.MkdirAll(dir, 0o755); err != nil {
+		panic(err)
+	}
+	defer os.RemoveAll(dir)
+	sm := &databasev1.Stream{
+		Metadata:    &commonv1.Metadata{Name: "st", Group: "g"},
+		TagFamilies: []*databasev1.TagFamilySpec{{Name: "f", Tags: append([]*databasev1.TagSpec{{Name: "e", Type: databasev1.TagType_TAG_TYPE_STRING}}, tagSpecs(false)...)}},
+		Entity:      &databasev1.Entity{TagNames: []string{"e"}},
+	}
+	res := drv.Safe(func() string {
+		ids, err := stream.VerifE2E(dir, "st", sm, batches, base.Add(time.Duration(lo)*time.Second), base.Add(time.Duration(hi)*time.Second),
+			inv, skp, []model.TagProjection{{Family: "f", Names: tagNames}})
+		if err != nil {
+			return "E:" + errClass(err)
+		}
+		sort.Slice(ids, func(i, j int) bool { return ids[i] < ids[j] })
+		p := make([]string, len(ids))
+		for i, v := range ids {
+			p[i] = strconv.FormatUint(v, 10)
+		}
+		return joinOrDash(p)
+	})
+	if strings.HasPrefix(res, "PANIC") {
+		res = "PANIC"
+	}
+	return res + " " + bits
+}
+
+// traceDecoder mirrors banyand/trace mustDecodeTagValueAndArray for the four tag types used here.
+func traceDecoder(vt pbv1.ValueType, value []byte, valueArr [][]byte) *modelv1.TagValue {
+	switch vt {
+	case pbv1.ValueTypeInt64:
+		if value == nil {
+			return pbv1.NullTagValue
+		}
+		return &modelv1.TagValue{Value: &modelv1.TagValue_Int{Int: &modelv1.Int{Value: convert.BytesToInt64(value)}}}
+	case pbv1.ValueTypeStr:
+		if value == nil {
+			return pbv1.NullTagValue
+		}
+		return &modelv1.TagValue{Value: &modelv1.TagValue_Str{Str: &modelv1.Str{Value: string(value)}}}
+	case pbv1.ValueTypeStrArr:
+		if valueArr == nil {
+			return pbv1.NullTagValue
+		}
+		var vs []string
+		for _, v := range valueArr {
+			vs = append(vs, string(v))
+		}
+		return &modelv1.TagValue{Value: &modelv1.TagValue_StrArray{StrArray: &modelv1.StrArray{Value: vs}}}
+	case pbv1.ValueTypeInt64Arr:
+		if valueArr == nil {
+			return pbv1.NullTagValue
+		}
+		var vs []int64
+		for _, v := range valueArr {
+			vs = append(vs, convert.BytesToInt64(v))
+		}
+		return &modelv1.TagValue{Value: &modelv1.TagValue_IntArray{IntArray: &modelv1.IntArray{Value: vs}}}
+	}
+	return pbv1.NullTagValue
+}
+
+// sq <sids> <minKey|-> <maxKey|-> <sid:key:payloadhex:v*6>... | <criteria>
+// A real SIDX instance (ConvertToMemPart + IntroduceMemPart), StreamingQuery with the production tag-filter adapter
+// around logical.BuildTagFilter and an optional key range. Payloads repeat across elements (trace id / spans).
+// output: <sorted distinct payloads returned> <tf bits>
+func doSQ(f []string) string {
+	sids := parseSids(f[1])
+	left, crit := splitBar(f[4:])
+	c := criteriaOf(crit)
+	var reqs []sidx.WriteRequest
+	var rv [][]string
+	for _, t := range left {
+		p := strings.Split(t, ":")
+		sid, _ := strconv.ParseUint(p[0], 10, 64)
+		key, _ := strconv.ParseInt(p[1], 10, 64)
+		vals := p[3 : 3+len(tagNames)]
+		rv = append(rv, vals)
+		var tags []sidx.Tag
+		for i, v := range vals {
+			tv := parseVal(v)
+			if tv == nil {
+				tv = pbv1.NullTagValue
+			}
+			tags = append(tags, traceTag(tagNames[i], tagTypes[i], tv))
+		}
+		reqs = append(reqs, sidx.WriteRequest{SeriesID: common.SeriesID(sid), Key: key, Data: drv.UnHex(p[2]), Tags: tags})
+	}
+	bits := tfBits(c, rv)
+	schema, _ := traceSchema()
+	flt, err := logical.BuildTagFilter(c, map[string]int{}, schema, schema, false, "")
+	if err != nil {
+		return "C" + errClass(err) + " " + bits
+	}
+	invSeq++
+	dir := filepath.Join(scratchRoot, fmt.Sprintf("sq%d", invSeq))
+	defer os.RemoveAll(dir)
+	opts := sidx.NewDefaultOptions()
+	opts.Memory = protector.NewMemory(observability.NewBypassRegistry())
+	opts.Path = dir
+	sx, err := sidx.NewSIDX(fs.NewLocalFileSystem(), opts)
+	if err != nil {
+		return "E:open " + bits
+	}
+	defer sx.Close()
+	mp, err := sx.ConvertToMemPart(reqs, 1, nil, nil)
+	if err != nil {
+		return "E:convert " + bits
+	}
+	sx.IntroduceMemPart(1, mp)
+	req := sidx.QueryRequest{TagFilter: logical.NewTagFilterMatcher(flt, schema, traceDecoder)}
+	for _, s := range sids {
+		req.SeriesIDs = append(req.SeriesIDs, common.SeriesID(s))
+	}
+	if f[2] != "-" {
+		v, _ := strconv.ParseInt(f[2], 10, 64)
+		req.MinKey = &v
+	}
+	if f[3] != "-" {
+		v, _ := strconv.ParseInt(f[3], 10, 64)
+		req.MaxKey = &v
+	}
+	set := map[string]bool{}
+	resCh, errCh := sx.StreamingQuery(context.Background(), req)
+	for r := range resCh {
+		if r.Error != nil {
+			return "E:query " + bits
+		}
+		for _, d := range r.Data {
+			set[drv.Hex(d)] = true
+		}
+	}
+	if e, ok := <-errCh; ok && e != nil {
+		return "E:query " + bits
+	}
+	var out []string
+	for k := range set {
+		out = append(out, k)
+	}
+	sort.Strings(out)
+	return joinOrDash(out) + " " + bits
+}
+
 func handle(f []string) string {
 	if len(f) == 0 {
 		return "bad-op"
@@ -1113,6 +1334,10 @@ func handle(f []string) string {
 		return doMPart(f)
 	case "bnd":
 		return doBnd(f)
+	case "e2e":
+		return doE2E(f)
+	case "sq":
+		return doSQ(f)
 	}
 	return "bad-op"
 }
